@@ -107,7 +107,18 @@ def one_trace(rng, tid, prop):
                                 ("reshape", {"shape": [-1]}), ("concatenate", {"axis": 0}), ("repeat", {"repeats": 2, "axis": 0})])
             ops = [x, x] if fn == "concatenate" else [x]
             params = {"fn": fn, "p": p, "spelling": "numpoly"}
-            rec.do("move", ops, gather=gather_map(params, [shape] * len(ops)), model=[], prop="C09", **params)
+            rec.do("move", ops, gather=gather_map(params, [shape] * len(ops)), model=[], **params)
+            if rng.random() < 0.5:
+                # diff with prepend / append of another dtype: computed in numpy's promoted dtype (signed and floating
+                # dtypes only: differences of unsigned values wrap)
+                from ..actions import reduce_fields
+                signed = ["int8", "int16", "int32", "int64", "float32", "float64"]
+                da, db = rng.choice(signed), rng.choice(signed)
+                arr = rec.new(poly_of(rng, da, (3,), names=(0, 1)))
+                ext = rec.new(poly_of(rng, db, rng.choice([(), (1,), (2,)]), names=(0, 1)))
+                pp = {"axis": 0, "n": 1, rng.choice(["has_pre", "has_app"]): True}
+                rec.do("reduce", [arr, ext], keep=False, fn="diff", p=pp, spelling=rng.choice(["numpoly", "numpy"]),
+                       **reduce_fields("diff", pp))
     return rec.to_json()
 
 
